@@ -161,10 +161,9 @@ fn run_builder(p: &Prog, leak: &RefCell<Option<Var<Ob, Op>>>) -> var::BuildResul
             }
         }
         if p.smuggle {
+            // (with no variable at all there is nothing to smuggle out)
             if let Some(v) = vars.first() {
                 *leak.borrow_mut() = Some(v.clone());
-            } else {
-                *leak.borrow_mut() = Some(Var::new(state.clone(), Ob(0)));
             }
         }
         (inputs, p.outputs.iter().map(|&i| vars[i].clone()).collect())
@@ -207,8 +206,7 @@ fn program_case(ctx: &mut Ctx, p: &Prog, xs: &[Vec<u64>]) -> CheckResult {
     // number of variables and operators
     let nops = p.steps.len();
     let nvars = p.input_labels.len()
-        + p.steps.iter().map(|s| match s { Step::Operation(_, _, n) => *n, _ => 1 }).sum::<usize>()
-        + if p.smuggle && p.input_labels.is_empty() && p.steps.iter().all(|s| matches!(s, Step::Operation(_, _, 0))) { 1 } else { 0 };
+        + p.steps.iter().map(|s| match s { Step::Operation(_, _, n) => *n, _ => 1 }).sum::<usize>();
     let term: LOH = match r {
         Ok(tm) => tm,
         Err(rc) => {
@@ -217,7 +215,13 @@ fn program_case(ctx: &mut Ctx, p: &Prog, xs: &[Vec<u64>]) -> CheckResult {
             let st = rc.borrow().clone();
             let non_var = st.hypergraph.edges.iter().filter(|e| e.0 != VAR).count();
             ensure!(ctx, non_var == nops, "build-fails-iff-handle-outlives", "the state handed back has {} operator hyperedges, want {}", non_var, nops);
-            return Ok(());
+            // once the stray handle is gone the state can be unwrapped; it is the term that was
+            // written: same checks as for a successful build
+            *leak.borrow_mut() = None;
+            match std::rc::Rc::try_unwrap(rc) {
+                Ok(cell) => cell.into_inner(),
+                Err(_) => return Err(ctx.fail("build-fails-iff-handle-outlives", "the state handed back is still shared after the stray handle was dropped")),
+            }
         }
     };
     let l = wf(ctx, "term-wf", from_lax(&term), "built term")?;
